@@ -343,6 +343,103 @@ def closing_handshake_case(workdir, cfg, order=("A", "B", "C"), adds=2):
         srv.stop()
 
 
+def transport_case(workdir, cfg, variant):
+    """Real process, real TCP, things only a real transport has: a command of 1.5 MB; several commands written in one
+    segment; one frame dribbling in byte by byte; a plain HTTP GET of /v1 and a connection that says nothing, before
+    and between websocket clients; an unbound connection that only pings for a while.  In every variant A (s1) and B
+    (s2) then share a mailbox: each command is acknowledged, each add reaches both, nobody is dropped.
+    -> (problems, observed)"""
+    srv = WireServer(workdir, cfg)
+    conns = []
+    problems, observed = [], {}
+
+    def until_pong(ws, tok, timeout=8.0):
+        ws.s.settimeout(timeout)
+        got = []
+        try:
+            while True:
+                f = ws.recv_json()
+                if f.get("type") == "pong" and f.get("pong") == tok:
+                    return got, None
+                got.append(strip(f))
+        except EOFError:
+            return got, "connection closed by the server"
+        except Exception as e:
+            return got, "no answer (%s)" % type(e).__name__
+
+    def frame(ws, obj):
+        data = json.dumps(obj).encode("utf-8")
+        mask = os.urandom(4)
+        n = len(data)
+        hdr = bytes([0x81])
+        if n < 126:
+            hdr += bytes([0x80 | n])
+        elif n < 65536:
+            hdr += bytes([0x80 | 126]) + struct.pack(">H", n)
+        else:
+            hdr += bytes([0x80 | 127]) + struct.pack(">Q", n)
+        return hdr + mask + bytes(b ^ mask[i % 4] for i, b in enumerate(data))
+
+    try:
+        if variant == "http-first":
+            for req in (b"GET /v1 HTTP/1.1\r\nHost: x\r\n\r\n", b"GET / HTTP/1.0\r\n\r\n", b""):
+                s = socket.create_connection(("127.0.0.1", srv.port), timeout=5)
+                if req:
+                    s.sendall(req)
+                    try:
+                        s.recv(4096)
+                    except Exception:
+                        pass
+                s.close()
+        A = RawWS(srv.port); conns.append(A); A.recv_json()
+        B = RawWS(srv.port); conns.append(B); B.recv_json()
+        if variant == "idle-unbound":
+            for i in range(3):
+                A.send_text(json.dumps({"type": "ping", "ping": i}))
+                until_pong(A, i)
+                time.sleep(0.4)
+        big = "f" * (1500 * 1000) if variant == "bigframe" else "small"
+        cmdsA = [{"type": "bind", "appid": "app", "side": "s1"}, {"type": "open", "mailbox": "tr"},
+                 {"type": "add", "phase": "p1", "body": "a1-" + big, "id": "x1"}, {"type": "add", "phase": "p2", "body": "a2", "id": "x2"},
+                 {"type": "ping", "ping": "endA"}]
+        B.send_text(json.dumps({"type": "bind", "appid": "app", "side": "s2"}))
+        B.send_text(json.dumps({"type": "open", "mailbox": "tr"}))
+        B.send_text(json.dumps({"type": "ping", "ping": "rdy"}))
+        until_pong(B, "rdy")
+        if variant == "pipelined":
+            A.s.sendall(b"".join(frame(A, c) for c in cmdsA))
+        elif variant == "dribble":
+            for c in cmdsA:
+                raw = frame(A, c)
+                for i in range(0, len(raw), 7):
+                    A.s.sendall(raw[i:i + 7])
+        else:
+            for c in cmdsA:
+                A.send_text(json.dumps(c))
+        gotA, errA = until_pong(A, "endA", timeout=20.0)
+        observed["A"] = [dict(f, body=f["body"][:12]) if "body" in f else f for f in gotA] + ([errA] if errA else [])
+        acks = [f.get("id") for f in gotA if f.get("type") == "ack"]
+        bodiesA = [f.get("body") for f in gotA if f.get("type") == "message"]
+        want = ["a1-" + big, "a2"]
+        if errA:
+            problems.append("the sending connection: %s" % errA)
+        if [a for a in acks if a in ("x1", "x2")] != ["x1", "x2"]:
+            problems.append("adds not acknowledged in order: %r" % acks)
+        if bodiesA != want:
+            problems.append("the sender received %d of its 2 messages" % len([x for x in bodiesA if x in want]))
+        B.send_text(json.dumps({"type": "ping", "ping": "endB"}))
+        gotB, errB = until_pong(B, "endB", timeout=20.0)
+        bodiesB = [f.get("body") for f in gotB if f.get("type") == "message"]
+        observed["B"] = [dict(f, body=f["body"][:12]) if "body" in f else f for f in gotB] + ([errB] if errB else [])
+        if errB or bodiesB != want:
+            problems.append("the other subscriber received %d of the 2 messages (%s)" % (len([x for x in bodiesB if x in want]), errB))
+        return problems, observed
+    finally:
+        for ws in conns:
+            ws.close()
+        srv.stop()
+
+
 # ---------------------------------------------------------------------------
 # syscall-order checker (C09)
 
